@@ -1475,6 +1475,17 @@ class FuncTranslator:
         v = self.expr(e, env)
         if isinstance(v.t, TTup):
             v = self.tuple_to_list(v)
+        if isinstance(v.t, TObj):
+            # an object that defines `__iter__` as `return iter(self.<slot>)` (the vertex containers do): iterate that slot
+            found = CLASSES.find_member(v.t.cls, '__iter__')
+            if found is not None:
+                owner, mod, fn = found
+                body = [b for b in fn.body if not (isinstance(b, ast.Expr) and isinstance(b.value, ast.Constant))]
+                if len(body) == 1 and isinstance(body[0], ast.Return) and isinstance(body[0].value, ast.Call) \
+                        and isinstance(body[0].value.func, ast.Name) and body[0].value.func.id == 'iter' and len(body[0].value.args) == 1 \
+                        and isinstance(body[0].value.args[0], ast.Attribute) and isinstance(body[0].value.args[0].value, ast.Name) \
+                        and body[0].value.args[0].value.id == 'self':
+                    v = self.getattr_val(v, body[0].value.args[0].attr, e)
         if not isinstance(v.t, TLst):
             self.fail(e, 'iteration over %r' % v.t)
         return v
